@@ -343,13 +343,20 @@ impl GraphInline {
                     .map(|inline| inline.change_key(target_key, updated_key))
                     .collect(),
             ),
-            GraphInline::Link(_, title, link_type, _) => {
+            GraphInline::Link(_, title, link_type, inlines) => {
                 if self.is_ref() && self.ref_key().map_or(false, |key| key.eq(target_key)) {
+                    // a piped wiki link shows the author's own text: keep it (the text of the
+                    // other kinds is derived from the target's title when the note is formatted)
+                    let text = match link_type {
+                        LinkType::WikiLinkPiped => inlines.clone(),
+                        _ => vec![],
+                    };
+
                     return GraphInline::Link(
                         updated_key.to_string(),
                         title.clone(),
                         *link_type,
-                        vec![],
+                        text,
                     );
                 }
 
